@@ -51,6 +51,11 @@ func (g *gen) newSpec(i int) core.PodSpec {
 		}
 	case 5, 6: // gpu memory
 		p.GpuMemory = int64(u.Pick(r, []int{10, 25, 50, 60, 100}))
+		if m := g.ni.MemoryOfEveryGpuOnNode; m > 100 && r.Chance(2, 3) {
+			// realistic device memory: requests around the device size and around the rounding
+			// steps of the portion (1/100 of the device)
+			p.GpuMemory = u.Pick(r, []int64{m / 4, m / 3, m / 2, m - 1, m, m + 1, m + m/400, m + m/250, m + m/200, m + m/200 + 1, m + m/100, 2*m - 1, 2 * m, 2*m + m/300})
+		}
 		if r.Chance(1, 5) {
 			p.NumDev = 2
 		}
@@ -400,8 +405,9 @@ func one(r *u.Rng, sessionLike bool) (term, label string, kinds map[string]int, 
 	vm := resource_info.NewResourceVectorMap()
 	ns := core.NodeSpec{Name: "n1", Cpu: int64(r.Pick3(2000, 4000, 8000)), Mem: int64(r.Pick3(4, 8, 16)) << 30,
 		Gpus: int64(r.Range(0, 4)), Pods: int64(r.Pick3(3, 6, 110)), Mig: int64(r.Pick3(0, 0, 2)), Ext: int64(r.Pick3(0, 4, 4))}
-	if r.Chance(1, 3) {
-		ns.GpuMem = int64(u.Pick(r, []int{100, 200, 16384}))
+	if r.Chance(1, 2) {
+		// the node label nvidia.com/gpu.memory in MiB; the scheduler rounds it down to a multiple of 100
+		ns.GpuMem = int64(u.Pick(r, []int{100, 200, 16384, 40960, 81920, 24564}))
 	}
 	g := &gen{r: r, ids: core.NewIds(), vm: vm, specs: map[string]core.PodSpec{}, live: map[string]*pod_info.PodInfo{}, kinds: map[string]int{}}
 	g.ni = core.MkNode(ns, vm)
@@ -453,6 +459,6 @@ func Run(dir string, seed uint64, n int) error {
 		}
 		out.Sample(label)
 	}
-	out.Stats["rule"] = "operation programs on one real NodeInfo (3-8 pods of kinds cpu/whole/fraction/multi-fraction/gpu-memory/MIG/best-effort/reservation; 0-4 GPUs). Stream 'session-like' replays what snapshot construction and statement operations do to a node (placement decided by the real IsTaskAllocatable / GetNodePreferableGpuForSharing, evict, undo in LIFO order); stream 'arbitrary' applies add/remove/update/consolidate with any active status and any groups, including error paths. Non-trivial = at least 3 operations of at least 2 kinds; distinct by the full operation list."
+	out.Stats["rule"] = "operation programs on one real NodeInfo (3-8 pods of kinds cpu/whole/fraction/multi-fraction/gpu-memory/MIG/best-effort/reservation; 0-4 GPUs; half of the nodes carry a device-memory label of 100 / 200 / 16384 / 24564 / 40960 / 81920 MiB and gpu-memory requests then sit around the device size and the 1/100 rounding steps of the portion). Stream 'session-like' replays what snapshot construction and statement operations do to a node (placement decided by the real IsTaskAllocatable / GetNodePreferableGpuForSharing, evict, undo in LIFO order); stream 'arbitrary' applies add/remove/update/consolidate with any active status and any groups, including error paths. Non-trivial = at least 3 operations of at least 2 kinds; distinct by the full operation list."
 	return out.Flush()
 }
